@@ -49,6 +49,12 @@ NS   == md.ns
 
 Min(a, b) == IF a < b THEN a ELSE b
 
+(* Every aggregation / recovery / verification function is a function of its arguments and writes to  *)
+(* none of them: the replayer issues each such call Calls times on the SAME argument objects          *)
+(* (commitments, responses, partial signatures, public keys, masks, message and signature slices);    *)
+(* every result must be the predicted value and the arguments must be unchanged after each call.      *)
+Calls == 2
+
 (***************************************************************************)
 (* BLS                                                                      *)
 (***************************************************************************)
@@ -69,7 +75,7 @@ BlsCase(tm, k, m) ==
     /\ out' = BlsVerdict(tm, k, m)
     /\ phase' = "done"
     /\ hist' = <<[act |-> "Sign"], [act |-> "Tamper", m |-> tm, effect |-> BlsEffect(tm)],
-                 [act |-> "Verify", key |-> k, msg |-> m, exp |-> BlsVerdict(tm, k, m)]>>
+                 [act |-> "Verify", key |-> k, msg |-> m, exp |-> BlsVerdict(tm, k, m), calls |-> Calls]>>
     /\ UNCHANGED <<cfg, list, mk, nops>>
 
 NextBls == \E tm \in BlsTampers, k \in BlsKeys, m \in BlsMsgs : BlsCase(tm, k, m)
@@ -139,7 +145,7 @@ Recover ==
     /\ out' = RecoverReq(list, cfg.t)
     /\ phase' = "done"
     /\ hist' = Append(hist, [act |-> "Recover", exp |-> RecoverReq(list, cfg.t),
-                             distinct |-> Cardinality(ValidIdx(list)), impl |-> RecoverImpl(list, cfg.t, BuggyDup)])
+                             distinct |-> Cardinality(ValidIdx(list)), impl |-> RecoverImpl(list, cfg.t, BuggyDup), calls |-> Calls])
     /\ UNCHANGED <<cfg, list, mk, nops, md>>
 
 NextTbls ==
@@ -267,14 +273,14 @@ Probe(o) ==
     /\ Mode = "bdn" /\ phase = "ops" /\ Live(o)
     /\ md.np < MaxProbes /\ o \notin md.since
     /\ md' = [md EXCEPT !.np = @ + 1, !.since = @ \cup {o}]
-    /\ hist' = Append(hist, [act |-> "Probe", obj |-> o, bits |-> mk[o].bits, exp |-> BdnExp(mk[o].bits)])
+    /\ hist' = Append(hist, [act |-> "Probe", obj |-> o, bits |-> mk[o].bits, exp |-> BdnExp(mk[o].bits), calls |-> Calls])
     /\ UNCHANGED <<cfg, list, mk, nops, phase, out>>
 
 Agg(o) ==
     /\ Mode = "bdn" /\ phase = "ops" /\ Live(o) /\ o \notin md.since
     /\ out' = BdnVerdict(mk[o].bits, "same", "same")
     /\ phase' = "done"
-    /\ hist' = Append(hist, [act |-> "Agg", obj |-> o, bits |-> mk[o].bits, exp |-> BdnExp(mk[o].bits)])
+    /\ hist' = Append(hist, [act |-> "Agg", obj |-> o, bits |-> mk[o].bits, exp |-> BdnExp(mk[o].bits), calls |-> Calls])
     /\ UNCHANGED <<cfg, list, mk, nops, md>>
 
 BdnMeta ==
@@ -326,14 +332,14 @@ CosiProbe ==
     /\ Mode = "cosi" /\ phase = "ops" /\ Live("A") /\ mk["A"].bits # {}
     /\ md.np < MaxProbes /\ "A" \notin md.since
     /\ md' = [md EXCEPT !.np = @ + 1, !.since = @ \cup {"A"}]
-    /\ hist' = Append(hist, [act |-> "SignVerify", final |-> FALSE, obj |-> "A", bits |-> mk["A"].bits, exp |-> CosiProbeExp(mk["A"].bits)])
+    /\ hist' = Append(hist, [act |-> "SignVerify", final |-> FALSE, obj |-> "A", bits |-> mk["A"].bits, exp |-> CosiProbeExp(mk["A"].bits), calls |-> Calls])
     /\ UNCHANGED <<cfg, list, mk, nops, phase, out>>
 
 SignVerify ==
     /\ Mode = "cosi" /\ phase = "ops" /\ Live("A") /\ mk["A"].bits # {} /\ "A" \notin md.since
     /\ out' = CosiVerdict(mk["A"].bits, "none", "nil")
     /\ phase' = "done"
-    /\ hist' = Append(hist, [act |-> "SignVerify", obj |-> "A", bits |-> mk["A"].bits, exp |-> CosiExp(mk["A"].bits)])
+    /\ hist' = Append(hist, [act |-> "SignVerify", obj |-> "A", bits |-> mk["A"].bits, exp |-> CosiExp(mk["A"].bits), calls |-> Calls])
     /\ UNCHANGED <<cfg, list, mk, nops, md>>
 
 CosiMeta ==
